@@ -68,11 +68,21 @@ pub fn check_unit(ty: usize, i: usize) -> Verdict {
                     who, got_amt, want.describe(), w
                 );
             }
-        } else if !rel_close(&got, want, -51) {
-            fail!(
-                "{}: scale() = {:?} differs from its definition {} by more than 2^-51 relative",
-                who, got_amt, want.describe()
-            );
+        } else {
+            // "to the precision of the amount type": the correctly rounded
+            // value or one of its two neighbours (a 17-digit literal of a
+            // non-terminating value, or one rounded product, is at most one
+            // step off; the catalogue's worst case is 1.3 ulp)
+            let ok = match amt::nearest(want) {
+                Some(w) => amt::same(got_amt, w) || amt::same(got_amt, amt::next_up(w)) || amt::same(got_amt, amt::next_down(w)),
+                None => false,
+            };
+            if !ok {
+                fail!(
+                    "{}: scale() = {:?} is more than one step away from the correctly rounded value {:?} of its definition {}",
+                    who, got_amt, amt::nearest(want), want.describe()
+                );
+            }
         }
     }
     #[cfg(feature = "dec")]
